@@ -6,10 +6,10 @@ CLAIM = True
 MANIFEST_TEXT = ("Lean 4 theorems in three layers. (1) Over an arbitrary linearly ordered field, about the comparison formulas regenerated from float_cmp.cc on "
                  "every run: documented definitions of eq/ne/lt/gt/le/ge for the three styles, symmetry, ne = not eq, exactly one of lt/eq/gt for epsilon >= 0, "
                  "le = lt or eq, ge = gt or eq, vector eq = conjunction and the lexicographic trichotomy; round/trunc in the four rounding styles (distance < 1, "
-                 "nearest integer, ties within epsilon in the documented direction, floor/floor+1 and the snap rules, unsigned targets). (2) The functions the model "
+                 "nearest integer, ties within epsilon in the documented direction, floor/floor+1 and the snap rules, integers are fixed points, unsigned targets). (2) The functions the model "
                  "driver actually executes on exact inputs (core Rat) are shown to be these generic functions at Q (rat_* theorems). (3) The comparison algebra "
                  "(symmetry, reflexivity, trichotomy, le/ge decomposition, vectors) is proved verbatim in the ROUNDING arithmetic FP f of every binary floating-point "
-                 "format (fp_* theorems; all finite operands, overflow to infinity included). Over Int with a machine-width check on every intermediate: "
+                 "format (fp_* theorems; all finite operands, overflow to infinity included; round/trunc fix integer-valued numbers of every magnitude). Over Int with a machine-width check on every intermediate: "
                  "power/factorial/binomial return the exact value iff it is representable (symmetry, Pascal), sign over every ordered ring, any/all classifiers. "
                  "The same model is run against the real code: over Q on float/double inputs whose C++ intermediates are exact (GMP re-checks that), over FP f "
                  "bit for bit on arbitrary finite float/double/long double values incl. omitted (default) epsilons and every overload / FloatCmpOps member, over the "
@@ -19,10 +19,10 @@ MANIFEST_NOTE = ("Trusted: Lean kernel (+propext/Classical.choice/Quot.sound), t
                  "(fidelity by differential execution against the hardware types and the harness minifloat), GMP as oracle, g++/ASan/UBSan, IEEE-754 conformance of "
                  "float/double/long double arithmetic of the test machine. The documented definitions and the round/trunc distance/direction laws are theorems of exact "
                  "arithmetic; for rounded arithmetic they are decided by the harness oracle up to one rounding per operation (three-valued), the algebraic laws are proved. "
-                 "Outside the checked domain: arguments whose neighbouring integers are not exactly representable in T (|val|+2 >= 2^digits; there the model is still "
-                 "compared bit for bit, but e.g. trunc<int,float>(2^24) = 2^24+1 is accepted), integer targets at the ends of their range (I(val)+-1 overflows), "
-                 "unsigned targets with val <= -1 (round) / val < 0 (trunc), NaN/infinite arguments, long double classifiers, narrow integer types. The vector overloads "
-                 "of round/trunc in float_cmp.cc cannot be instantiated (ambiguous partial specialisation, re-checked) and are not covered.")
+                 "Outside the checked domain: integer targets at the ends of their range (I(val)+-1 overflows), unsigned targets with val <= -1 (round) / "
+                 "val < 0 (trunc), NaN/infinite arguments, long double classifiers, narrow integer types. Integer-valued arguments of every magnitude are inside "
+                 "(round/trunc must return them unchanged, also where val+1 is not representable in T). The vector overloads of round/trunc in float_cmp.cc cannot "
+                 "be instantiated (ambiguous partial specialisation, re-checked) and are not covered.")
 TECHNIQUE = ("Lean 4 proof over a generic ordered-field model and over an executable IEEE rounding model + translator for the comparison formulas and default epsilons + "
              "differential correspondence (exact rationals, bit-exact float/double/long double, exhaustive minifloat, GMP oracle)")
 TRANSLATORS = [tr_c17.translate]
@@ -45,9 +45,9 @@ ASSUMPTIONS = [
     "ops fcmp/fcmpv/fround/ftrunc: arbitrary finite values; float/double/long double arithmetic of the machine is IEEE 754 round-to-nearest-even (binary32, binary64, x87 extended), which the Lean type FP f models; int<->float conversions round to nearest / truncate",
     "the minifloat class is part of the harness (one rounding per operation, ties to even); it is modelled by the same FP f with f = (4 bits, emin -6, emax 7)",
     "round/trunc: I(val), lower-1 and upper+1 stay inside the integer target type; unsigned targets: val >= 0 for trunc, val > -1 for round (the largest unsigned value then stands for -1)",
-    "the round/trunc oracle is silent (correspondence only) where the neighbouring integers are not exactly representable in T: |val| + 2 >= 2^digits(T)",
+    "a non-integer value of T is below 2^(digits-1), so its neighbouring integers convert exactly; integer-valued arguments (all values from 2^(digits-1) on) must be returned unchanged by round and trunc",
     "power is run with |p| <= 4096",
-    "the model describes the code after fixes/C17_binomial_overflow.patch and fixes/C17_round_unsigned.patch",
+    "the model describes the code after fixes/C17_binomial_overflow.patch, fixes/C17_round_unsigned.patch and fixes/C17_trunc_large.patch",
 ]
 TRUSTED = ["g++/libstdc++, ASan/UBSan, GMP as oracle", "translator tr_c17.py", "harness/cxx_c17.cc + Driver/C17.lean parsing/printing",
            "IEEE-754 conformance of the machine's float/double/long double operations"]
